@@ -139,18 +139,26 @@ let err_s = function
 
 let outcome_s = function Finished -> "finished" | Failed e -> err_s e
 
-let only name =
-  let d = dev_none in
-  match name with
-  | "noshort" -> { d with d_noshort = true }
-  | "rtl" -> { d with d_rtl = true }
-  | "twice" -> { d with d_twice = true }
-  | "elemcall" -> { d with d_elemcall = true }
-  | "retry" -> { d with d_retry = true }
-  | _ -> d
+let dev_of (names : string list) =
+  List.fold_left (fun d n ->
+    match n with
+    | "noshort" -> { d with d_noshort = true }
+    | "rtl" -> { d with d_rtl = true }
+    | "twice" -> { d with d_twice = true }
+    | "elemcall" -> { d with d_elemcall = true }
+    | "retry" -> { d with d_retry = true }
+    | _ -> d) dev_none names
 
+let switches = ["noshort"; "rtl"; "twice"; "elemcall"; "retry"]
+let rec subsets = function
+  | [] -> [[]]
+  | x :: r -> let s = subsets r in s @ List.map (fun l -> x :: l) s
+
+(* argv.(2) = "subsets": instead of REF/MECH/ONLY print the transcript of every one of the 32 switch
+   combinations as  ===DEV <a+b+..|none> <outcome> / <stdout>  (used to name a partial repair) *)
 let () =
   let fuel = nat_of_int (if Array.length Sys.argv > 1 then int_of_string Sys.argv.(1) else 4000) in
+  let all = Array.length Sys.argv > 2 && Sys.argv.(2) = "subsets" in
   try
     while true do
       let line = input_line stdin in
@@ -158,20 +166,27 @@ let () =
         let p = prog_of (parse_sx line) in
         print_endline "===BEGIN";
         print_string (implode (print_program p));
-        let (out, oc) = run fuel p in
-        let rtxt = implode (render out) in
-        print_endline ("===REF " ^ outcome_s oc);
-        print_string rtxt; print_endline "";
-        let (mo, moc) = irun dev_pinned fuel p in
-        print_endline ("===MECH " ^ outcome_s moc);
-        print_string (implode (render mo)); print_endline "";
-        List.iter (fun name ->
-          let (o1, c1) = irun (only name) fuel p in
-          let t1 = implode (render o1) in
-          if t1 <> rtxt || c1 <> oc then begin
-            print_endline ("===ONLY " ^ name ^ " " ^ outcome_s c1);
-            print_string t1; print_endline ""
-          end) ["noshort"; "rtl"; "twice"; "elemcall"; "retry"];
+        if all then
+          List.iter (fun names ->
+            let (o1, c1) = irun (dev_of names) fuel p in
+            print_endline ("===DEV " ^ (if names = [] then "none" else String.concat "+" names) ^ " " ^ outcome_s c1);
+            print_string (implode (render o1)); print_endline "") (subsets switches)
+        else begin
+          let (out, oc) = run fuel p in
+          let rtxt = implode (render out) in
+          print_endline ("===REF " ^ outcome_s oc);
+          print_string rtxt; print_endline "";
+          let (mo, moc) = irun dev_pinned fuel p in
+          print_endline ("===MECH " ^ outcome_s moc);
+          print_string (implode (render mo)); print_endline "";
+          List.iter (fun name ->
+            let (o1, c1) = irun (dev_of [name]) fuel p in
+            let t1 = implode (render o1) in
+            if t1 <> rtxt || c1 <> oc then begin
+              print_endline ("===ONLY " ^ name ^ " " ^ outcome_s c1);
+              print_string t1; print_endline ""
+            end) switches
+        end;
         print_endline "===END"
       end
     done
